@@ -465,6 +465,9 @@ impl Tokenizer {
             }
 
             if byte != '/' {
+                // This byte may be the `<` of the end tag (`<title>a<</title>`), read it again
+                self.raw.end -= 1;
+
                 continue;
             }
 
